@@ -399,6 +399,7 @@ def run(ck, m):
 
 
 MUTANTS = [
+    M("update-skip-when-equal", TY, "ArgsNamespace.update", "        new = type(self).__new__(type(self))\n", "        if all(getattr(self, k) == v for k, v in fields.items()):\n            return self\n        new = type(self).__new__(type(self))\n", {"R1"}),
     M("update-in-place", TY, "RenderArgs.update#3", "        return RenderArgs(\n            self.render_cls,", "        self._namespaces = dict(self._namespaces)\n        return RenderArgs(\n            self.render_cls,", {"R1", "R2"}),
     M("ns-update-in-place", TY, "ArgsNamespace.update", "        new = type(self).__new__(type(self))\n", "        new = self\n", {"R1"}),
     M("no-copy-defaults", TY, "RenderArgs.__init__", "render_cls._ALL_DEFAULT_ARGS.copy()", "dict(init_render_args._namespaces) if init_render_args else render_cls._ALL_DEFAULT_ARGS.copy()", {"R2", "R4"}),
